@@ -16,6 +16,8 @@ fn gen_cfg() -> GenCfg {
         (K::NewFileWritten, 18),
         (K::CreateDir, 6),
         (K::Write, 20),
+        // a write hit by a transient storage fault and retried by the caller, then flushed like any other
+        (K::WriteRetry, 6),
         (K::Seek, 5),
         (K::Flush, 10),
         (K::CloseFile, 8),
